@@ -498,6 +498,64 @@ func c19Kids(v cty.Value) []c19Kid {
 	return out
 }
 
+// c19RefReplace: the reference for "transform with a callback that replaces the node at path `target`
+// by repl and leaves every other node alone": children first, through the public constructors.
+func c19RefReplace(v cty.Value, p cty.Path, target string, repl cty.Value) cty.Value {
+	out := v
+	if v.IsKnown() && !v.IsNull() {
+		raw, marks := v.Unmark()
+		kids := c19Kids(v)
+		if len(kids) > 0 {
+			vals := make([]cty.Value, len(kids))
+			for i, k := range kids {
+				vals[i] = c19RefReplace(k.v, append(p.Copy(), k.step), target, repl)
+			}
+			ty := raw.Type()
+			var nv cty.Value
+			switch {
+			case ty.IsObjectType():
+				m := map[string]cty.Value{}
+				for i, k := range kids {
+					m[k.step.(cty.GetAttrStep).Name] = vals[i]
+				}
+				nv = cty.ObjectVal(m)
+			case ty.IsMapType():
+				m := map[string]cty.Value{}
+				for i, k := range kids {
+					m[k.step.(cty.IndexStep).Key.AsString()] = vals[i]
+				}
+				nv = cty.MapVal(m)
+			case ty.IsListType():
+				nv = cty.ListVal(vals)
+			case ty.IsTupleType():
+				nv = cty.TupleVal(vals)
+			case ty.IsSetType():
+				nv = cty.SetVal(vals)
+			}
+			out = nv.WithMarks(marks)
+		}
+	}
+	if encPath(p) == target {
+		return repl
+	}
+	return out
+}
+
+// c19OrderOnly: a and b are sets (possibly marked) with the same members and differ only in the
+// iteration order of members that setRules.Less does not order (recorded under C03)
+func c19OrderOnly(a, b cty.Value) bool {
+	ok := false
+	try(func() {
+		ua, ma := a.UnmarkDeep()
+		ub, mb := b.UnmarkDeep()
+		if !ma.Equal(mb) || !ua.Type().Equals(ub.Type()) || !ua.IsWhollyKnown() || !ub.IsWhollyKnown() {
+			return
+		}
+		ok = ua.Equals(ub).True()
+	})
+	return ok
+}
+
 func c19Count(v cty.Value) int {
 	n := 1
 	for _, k := range c19Kids(v) {
@@ -736,7 +794,21 @@ func c19TransformCase(ctx *Ctx, v cty.Value, wlog []c19Visit) {
 		// d19: an evaluation counts as non-trivial only when the predicate below is really applied
 		ctx.Eval("trepl "+vw+" "+rule.enc(), len(tgt.p) > 0 && !hasSetStep(v, tgt.p) && repl.Type().Equals(tgt.v.Type()))
 		if hasSetStep(v, tgt.p) {
-			ctx.Tag("trepl:skipped-set-step")
+			// below a set there are no stable paths into the result: compare the whole result with an
+			// independent post-order rebuild through the public constructors (a seeded change returned the
+			// ORIGINAL set whenever the member iterated last came back unchanged, dropping the replacement)
+			ctx.Tag("trepl:set-step-by-reference")
+			if repl.Type().Equals(tgt.v.Type()) && strings.HasPrefix(outcome, "ok ") {
+				var ref cty.Value
+				if pan, _ := try(func() { ref = c19RefReplace(v, nil, tk, repl) }); !pan {
+					same := false
+					try(func() { same = res.RawEquals(ref) })
+					if !same && !c19OrderOnly(res, ref) {
+						ctx.Fail(Failure{Site: "transform-replace", Sig: "set-member-not-replaced", What: "replacing one member below a set: the result is not the value rebuilt from the transformed members",
+							Input: vw + " " + rule.enc(), GoLit: lit + " ; " + rule.lit(), Outcome: outcome + " expected " + encVal(ref)})
+					}
+				}
+			}
 			continue
 		}
 		if !repl.Type().Equals(tgt.v.Type()) {
